@@ -51,6 +51,12 @@ fn main() {
         println!("{:?}", r);
         return;
     }
+    if stream == "hash-probe" {
+        // debugging aid: replay a stored hash line (file given as second argument)
+        let text = std::fs::read_to_string(&args[2]).unwrap();
+        hashstream::probe(text.trim());
+        return;
+    }
     let seed: u64 = arg(&args, "seed", 1);
     let cases: u64 = arg(&args, "cases", 10);
     let from: u64 = arg(&args, "from", 0);
